@@ -107,3 +107,18 @@ Definition opt_le_with {T : Type} (cmp : T -> T -> rs (option comparison)) (a b 
   | Some _, None => Ret false
   | Some x, Some y => bind (cmp x y) (fun c => Ret match c with Some Lt | Some Eq => true | _ => false end)
   end.
+
+(** [while COND { BODY }]: bounded by a fuel term chosen per function; running out of fuel is reported
+    as [Panic] (the bridge lemmas show it does not happen) *)
+Fixpoint whileM {S R : Type} (fuel : nat) (cond : S -> rs bool) (body : S -> rs (ctrl S R)) (s : S) : rs (ctrl S R) :=
+  match fuel with
+  | O => Panic
+  | Datatypes.S f =>
+      bind (cond s) (fun c =>
+        if c then bind (body s) (fun r => match r with
+                                          | Next s' => whileM f cond body s'
+                                          | Stop s' => Ret (Stop s')
+                                          | Break v => Ret (Break v)
+                                          end)
+        else Ret (Next s))
+  end.
